@@ -86,7 +86,7 @@ def documents(draw, max_nodes=40, max_depth=5, namespaces=True, ids=True, astral
             seen.add(key)
             attrs.append('%s="%s"' % (an, esc_attr(draw(st.sampled_from(TEXTS)))))
         if draw(st.integers(0, 7)) == 0:
-            attrs.append('xml:lang="%s"' % draw(st.sampled_from(['en', 'en-US', 'EN', 'fr', ''])))
+            attrs.append('xml:lang="%s"' % draw(st.sampled_from(['en', 'en-US', 'EN', 'fr', 'de'])))
         if use_ids and draw(st.integers(0, 2)) == 0:
             free = [v for v in idvals if v not in used_ids]
             if free:
